@@ -479,12 +479,12 @@ PROPS = {
                       "(built_refs_in_namespace) and removal/wipe leave every other ref in place (host_refs_untouched, with C14's frame "
                       "theorems). Regenerated on every run: all literals from which ref names, refspecs and configuration keys are built "
                       "(gen_ref_literals, gen_config_literals). Sessions on a real host repository check the frame from outside and let "
-                      "stock git judge every object.",
+                      "stock git judge every object. The author and committer lines are modelled too (Model/Ident: the cleaning of author.* / committer.* and git's fsck_ident): whatever the configuration holds, the line written passes fsck (cleaned_ident_fsck_ok), while the uncleaned strings of the pinned tree did not (raw_ident_fsck_fails); the lines of real commits are compared with the model's.",
         "level_note": "Trusted: Lean kernel, extractor, harness, stock git (fsck, gc, clone) as the judge of object validity. Commit and blob "
                       "encoding is go-git's. The frame is observed through refs, HEAD, index, working tree, hooks, info, local configuration "
                       "and the top level of .git.",
         "required_theorems": ["sortTree_perm", "sortTree_sorted", "sorted_tree_fsck_ok", "pack_tree_fsck_ok", "extra_tree_fsck_ok",
-                              "built_refs_in_namespace", "host_refs_untouched", "gen_ref_literals", "gen_config_literals"],
+                              "built_refs_in_namespace", "host_refs_untouched", "gen_ref_literals", "gen_config_literals", "cleanIdent_no_special", "plain_ident_fsck_ok", "cleaned_ident_fsck_ok", "raw_ident_fsck_fails"],
         "slices": ["C15"],
         "needs_gitbug": True,
         "timeout": {"quick": 2400, "thorough": 7200},
